@@ -39,6 +39,8 @@ fn main() {
             0
         }
         "replay" => icverif::props::replay_file(&args[2]),
+        // private subcommand of C08: one worker subprocess of the function sweep (RLIMIT_AS + watchdog in the parent)
+        "c08-worker" => icverif::props::c08::worker_main(&args[2..]),
         _ => 2,
     };
     std::process::exit(code);
